@@ -5,7 +5,7 @@
 #     cfg: "-" or k=v pairs joined by ","   (static=1: static relay pull on; push=N: N relay-push targets;
 #                                            tree=pinned: the MODEL follows the pinned tree - replay of refutation witnesses)
 #     ops (args joined by "."; streams and session ids are small numbers):
-#       rp.S.N[.deny]  rtmp publish      rs.S.N[.deny]  rtmp play       ap.S.N[.deny] rtsp ANNOUNCE
+#       rp.S.N[.deny|.L<n>] rtmp publish (L<n>: n bytes of URL parameters)      rs.S.N[.deny]  rtmp play       ap.S.N[.deny] rtsp ANNOUNCE
 #       ds.S.N[.deny]  rtsp DESCRIBE     pl.N           rtsp PLAY       fs.S.N[.deny] http-flv   ts.S.N[.deny] http-ts
 #       cp.S.N         customize pub     pp.S.N         start_rtp_pub   gone.N        connection ends / DelCustomizePubSession
 #       kick.S.<name>  kick_session      spull.S.R.A    start_relay_pull (retry R, auto-stop A ms; nK = -K)
